@@ -12,6 +12,8 @@ target("breezy/log.py::_rebase_merge_depth", params=dict(view_revisions=VR), res
                     c.result == c.old.view_revisions,
                     exists([INT], lambda m: And(m != 0, forall([INT], lambda i: Implies(And(0 <= i, i < Len(c.result)),
                                                                                        c.result[i][2] == c.old.view_revisions[i][2] - m))))),
+                "the_top_level_shown_is_depth_zero": lambda c: Implies(
+                    Len(c.result) > 0, exists([INT], lambda i: And(0 <= i, i < Len(c.result), c.result[i][2] == 0))),
                 "untouched_when_an_end_is_at_depth_zero": lambda c: Implies(
                     Or(Len(c.old.view_revisions) == 0, c.old.view_revisions[0][2] == 0, c.old.view_revisions[Len(c.old.view_revisions) - 1][2] == 0),
                     c.result == c.old.view_revisions)},
